@@ -306,7 +306,8 @@ C12_CFG = dict(
            ("realistic", "base", 16, 160, 2, TINY, TINY_T),
            ("rulesets", "base", 60, 800, 20, TINY, TINY_T),
            ("munch", "base", 60, 1600, 20, TINY, TINY_T),
-           ("mixed", "base", 60, 800, 20, TINY, TINY_T)],
+           ("mixed", "base", 60, 800, 20, TINY, TINY_T),
+           ("eoimid", "base", 40, 800, 20, TINY, TINY_T)],
 )
 
 
@@ -316,6 +317,44 @@ def check_c12(root, prop, tier, seed, res):
     for x in eng.compile_failures():
         res.violations.append(x)
     res.extra["build_and_run_wall_s"] = round(time.time() - t0, 1)
+    # hand-written header shapes (attributes, visibility, lifetimes in state / token / error types, names)
+    import vheaders
+    from vcheck import Batch
+    src, hmap = vheaders.gen_source()
+    hname = "c12_%s_headers" % tier[0]
+    with open(os.path.join(eng.work, "src", "bin", hname + ".rs"), "w") as f:
+        f.write(src)
+    hb = Batch(hname, "headers", "static", list(range(len(hmap))), {})
+    hb.map = hmap
+    rc, out, err, to = run(["cargo", "build", "--offline", "--message-format=json", "--bin", hname], cwd=eng.work, env=eng.env, timeout=3600)
+    bad = {}
+    for line in out.splitlines():
+        if not line.startswith("{"):
+            continue
+        try:
+            msg = json.loads(line)
+        except ValueError:
+            continue
+        if msg.get("reason") == "compiler-message" and msg.get("message", {}).get("level") == "error":
+            ent = eng._attribute(hb, msg["message"])
+            text = msg["message"].get("message", "")
+            if ent is not None:
+                bad.setdefault(ent["index"], (ent, text))
+            elif "aborting due to" not in text and "could not compile" not in text:
+                bad.setdefault(-1, ({"label": "unattributed", "source": "", "index": -1}, text))
+    for idx, (ent, text) in sorted(bad.items()):
+        res.violations.append({"what": "header shape '%s' does not expand/compile: %s" % (ent["label"], text[:400]), "family": "headers",
+                               "index": idx, "definition": ent["label"], "source": ent.get("source", "")})
+    ran = False
+    if rc == 0 and not bad:
+        rc2, out2, err2, to2 = run([os.path.join(eng.env["CARGO_TARGET_DIR"], "debug", hname)], env=eng.env, timeout=600)
+        ran = rc2 == 0 and "headers ok" in out2
+        if not ran:
+            res.violations.append({"what": "a lexer with a non-default header misbehaves or panics on a short input: " + (err2 or out2)[-600:],
+                                   "family": "headers", "index": -2})
+    elif rc != 0 and not bad:
+        res.inconclusive.append("header batch failed to build without an attributable diagnostic: " + err[-500:])
+    res.extra["header_shapes"] = {"compiled": len(hmap) - len([k for k in bad if k >= 0]), "total": len(hmap), "ran": ran}
     # determinism: expand two files twice in separate processes
     env = dict(eng.env)
     env["RUSTC_BOOTSTRAP"] = "1"
